@@ -339,6 +339,12 @@ def expand_combinators(prog, e, depth=4):
             return x
         if x[0] == "call" and isinstance(x[1], str) and len(x) >= 3 and d > 0:
             args = tuple(go(a, d) for a in x[2])
+            if re.search(r"<impl bool>::then$|bool::then$", x[1]) and len(args) == 2:
+                # bool::then(c, F) -> phi(Some{F()} | None)   (which alternative is taken is `c`: see bool_function's `result`)
+                fv = apply0(args[1])
+                if fv is not None:
+                    out = [agg("core::option::Option", "Some", go(v, d - 1)) for v in fv] + [agg("core::option::Option", "None")]
+                    return ("phi", tuple(out))
             if re.search(r"^core::option::Option::<T>::or_else$", x[1]) and len(args) == 2:
                 # Option::or_else(o, F) -> phi(o | F())   (o when it is Some, else what F gives)
                 fv = apply0(args[1])
@@ -712,6 +718,13 @@ def bool_function(prog, path, atom, depth=3, max_paths=64, keep=None, result=Non
             v = result(r)
             if v is None:
                 return None, "the result `%s` is not recognised" % _short(r)
+            if isinstance(v, tuple) and v and v[0] == "cond":
+                # "true exactly when <expr> holds" (`c.then(..)` is Some iff c; `x.map(..)` is Some iff x is)
+                k = classify(v[1], as_result=True)
+                if k is None:
+                    return None, "the result depends on `%s`, which is not one of the expected tests" % _short(strip(v[1]))
+                rows.append((cs, k))
+                continue
             rv = ("const", bool(v))
         elif r[0] == "const" and r[1] in ("int", "bool") and r[2] in (0, 1, True, False):
             rv = ("const", bool(r[2]) != neg)
